@@ -505,6 +505,11 @@ func (c *Conn) ExecRollbackTx(tx Tx) (res TxResult, err error) {
 	hdrOff := int64(0)
 	joff := int64(0)
 	writeHdr := func() error {
+		// SQLite draws a fresh checksum nonce for every journal header: the records
+		// of a segment are summed with the nonce of that segment's header
+		if hdrOff > 0 {
+			nonce = nonce*2654435761 + 0x7f4a7c15
+		}
 		h := c.journalHeader(nonce, origSize, noSync)
 		for o := int64(0); o < c.hdrSize(); o += int64(len(h)) {
 			c.op("write journal hdr @%d n=%d", hdrOff+o, len(h))
